@@ -33,10 +33,23 @@ func newDiffState(oldMast *Mast, newMast *Mast) *diffState {
 	dc.alreadyNotifiedNewLink = map[uint8]interface{}{}
 	if oldMast != nil {
 		dc.oldMast = oldMast
-		dc.oldStack = newIterItemStack(iterItem{considerLink: oldMast.root})
+		dc.oldStack = rootItemStack(oldMast.root)
 	}
-	dc.newStack = newIterItemStack(iterItem{considerLink: newMast.root})
+	dc.newStack = rootItemStack(newMast.root)
 	return &dc
+}
+
+// rootItemStack starts a traversal at a tree's root link. An empty tree (no
+// top node after deletes, or the entry-less top node of a new tree) has
+// nothing to traverse; pushing its nil link would be taken for an entry.
+func rootItemStack(root interface{}) iterItemStack {
+	if root == nil {
+		return iterItemStack{}
+	}
+	if node, ok := root.(*mastNode); ok && node.isEmpty() {
+		return iterItemStack{}
+	}
+	return newIterItemStack(iterItem{considerLink: root})
 }
 
 func (dc *diffState) resetCurrent() {
